@@ -874,12 +874,10 @@ def parse_tree_to_objgraph(
         # (the class is looked up by its fully qualified name: a plain class
         # name is only visible from the main grammar and the grammars it
         # imports directly)
-        if getattr(model_obj, "_tx_fqn", model_obj.__class__.__name__) in metamodel:
-            if hasattr(model_obj, "_tx_fqn"):
-                current_metaclass_of_obj = metamodel[model_obj._tx_fqn]
-            else:
-                # fallback (not used - unsure if this case is required...):
-                current_metaclass_of_obj = metamodel[model_obj.__class__.__name__]
+        # A plain Python value (e.g. the result of a match rule's processor)
+        # is no model object, whatever the name of its Python class.
+        if hasattr(model_obj, "_tx_fqn") and model_obj._tx_fqn in metamodel:
+            current_metaclass_of_obj = metamodel[model_obj._tx_fqn]
             assert current_metaclass_of_obj is not None
 
             for metaattr in current_metaclass_of_obj._tx_attrs.values():
